@@ -65,7 +65,10 @@ class Gen:
         elif k < 0.7:
             n = {"t": "map", "items": []}
             for _ in range(r.randrange(1, 4)):
-                n["items"].append([self.fresh("k"), self.deco(self.node(depth + 1))])
+                key = self.fresh("k")
+                if r.random() < 0.12:
+                    key = r.choice(["? [x, y]\n%s", "? {k: v}\n%s", "? &%s [p, q]\n%%s" % self.fresh("a")])
+                n["items"].append([key, self.deco(self.node(depth + 1))])
         else:
             n = {"t": "seq", "items": [self.deco(self.node(depth + 1)) for _ in range(r.randrange(1, 4))]}
         if r.random() < 0.12 and not n.get("alias"):
@@ -129,6 +132,9 @@ class Gen:
         pad = "  " * ind
         if v.get("head"):
             out.append(pad + "# " + v["head"])
+        if k.startswith("?"):
+            # complex key: "? key" on its own line, then ": value"
+            k = k % pad
         if v["t"] in ("map", "seq"):
             anc = ("&%s" % v["anchor"]) if v.get("anchor") else ""
             out.append(pad + k + ":" + ((" " + anc) if anc else ""))
@@ -189,11 +195,20 @@ class Gen:
         root.pop("anchor", None)
         root.pop("_pending_anchor", None)
         out = []
-        if r.random() < 0.4:
+        hv = r.random()
+        if hv < 0.35:
             out.append("# " + self.fresh("lead"))
             if r.random() < 0.5:
                 out.append("")
-        if r.random() < 0.25:
+            if r.random() < 0.25:
+                out.append("---")
+        elif hv < 0.55:
+            # explicit document start first, then the header (directly above the first node, or a blank line apart)
+            out.append("---")
+            out.append("# " + self.fresh("lead"))
+            if r.random() < 0.4:
+                out.append("")
+        elif hv < 0.65:
             out.append("---")
         if root["t"] == "map":
             for k, v in root["items"]:
@@ -232,6 +247,13 @@ def comments_of(n):
     return [c for c in (n["head"], n["line"], n["foot"]) if c]
 
 
+def _flat(n):
+    """Value of a node with everything below it (a map key may be a collection)."""
+    if not n.get("content"):
+        return n["value"]
+    return json.dumps([KIND.get(n["kind"]), n["style"], n["tag"], [_flat(c) for c in n["content"]]])
+
+
 def build_table(node, path, table, order):
     """table[path] = {'a': attrs, 'shape': ..}; map keys get path + ('#k',)."""
     k = KIND.get(node["kind"])
@@ -241,11 +263,11 @@ def build_table(node, path, table, order):
         keys = []
         for i in range(0, len(content) - 1, 2):
             kn, vn = content[i], content[i + 1]
-            key = kn["value"] if KIND.get(kn["kind"]) == "scalar" else "?" + json.dumps(kn, sort_keys=True)[:40]
+            key = kn["value"] if KIND.get(kn["kind"]) == "scalar" else "?" + _flat(kn)
             if key in keys:
                 key = key + "#dup%d" % i
             keys.append(key)
-            table[path + (key, "#k")] = {"a": attrs(kn), "shape": kn["value"], "pos": (kn["l"], kn["c"]), "cm": comments_of(kn)}
+            table[path + (key, "#k")] = {"a": attrs(kn), "shape": _flat(kn), "pos": (kn["l"], kn["c"]), "cm": comments_of(kn)}
             build_table(vn, path + (key,), table, order)
         ent["shape"] = tuple(keys)
     elif k == "seq":
@@ -309,11 +331,11 @@ def compare(t0, t1, upd):
                 return parent + (j - 1,) + q[len(parent) + 1:]
         return q
 
-    cone = P if kind != "create" else P  # for create P is the map that receives the key
+    grows = kind in ("create", "append", "mapappend")   # P is a collection that receives new children: every old node stays
     expected = {}
     for q, e in t0.items():
-        if is_under(cone, q):
-            if q == cone + ("#k",) and kind != "delete":
+        if is_under(P, q) and not grows:
+            if q == P + ("#k",) and kind != "delete":
                 # key node of the target entry: not part of the target, but comments on it are
                 # attributed by position; style/tag/anchor must stay
                 e1 = t1.get(q)
@@ -329,8 +351,15 @@ def compare(t0, t1, upd):
         if e1["a"] != e["a"]:
             diffs.append(("attrs", q, e, e1))
             continue
-        anc = is_under(q, P) or (kind == "create" and is_under(q, P))
-        if not anc and e1["shape"] != e["shape"]:
+        anc = is_under(q, P)
+        if grows and q == P:
+            # the old children first, in their order
+            old = e["shape"]
+            ok = (e1["shape"][:len(old)] == old) if isinstance(old, tuple) and isinstance(e1["shape"], tuple) else \
+                 (isinstance(old, int) and isinstance(e1["shape"], int) and e1["shape"] >= old)
+            if not ok:
+                diffs.append(("sibling-order", q, e, e1))
+        elif not anc and e1["shape"] != e["shape"]:
             diffs.append(("shape", q, e, e1))
         elif anc and q == parent and kind == "delete":
             exp = tuple(k for k in e["shape"] if k != P[-1]) if isinstance(e["shape"], tuple) else e["shape"] - 1
@@ -339,7 +368,7 @@ def compare(t0, t1, upd):
         elif anc and q == parent and kind != "delete" and e1["shape"] != e["shape"]:
             diffs.append(("sibling-order", q, e, e1))
     for q1, e1 in t1.items():
-        if q1 not in expected and not is_under(cone, q1):
+        if q1 not in expected and not is_under(P, q1):
             diffs.append(("extra", q1, None, e1))
     return diffs
 
@@ -368,12 +397,13 @@ def compare_comments(o0, o1, t0, t1, upd):
                 return parent + (j - 1,) + q[len(parent) + 1:]
         return q
     # collections have no position of their own (yaml.v3 gives them the position of their first child)
-    frame0 = [(e["pos"], q) for q, e in t0.items() if not is_under(P, q) and q != ("$doc",) and e["a"][0] in ("scalar", "alias")]
+    grows = kind in ("create", "append", "mapappend")
+    frame0 = [(e["pos"], q) for q, e in t0.items() if (grows or not is_under(P, q)) and q != ("$doc",) and e["a"][0] in ("scalar", "alias")]
     frame1 = [(t1[mapq(q)]["pos"], q) for _, q in frame0 if mapq(q) in t1]
     c0, c1 = comment_positions(o0), comment_positions(o1)
     for q, e in t0.items():
-        if is_under(P, q):
-            continue
+        if (is_under(P, q) and not grows) or q == P or q == P + ("#k",):
+            continue   # (the target's own comments are the target's business)
         for c in e.get("cm", []):
             for tok in re.findall(r"# (?:hc|lc|fc|lead|tail)\d+\b", c):
                 if tok not in c1:
@@ -514,7 +544,7 @@ def make_updates(rng, table, root):
     ups = []
     if not ts:
         return ups
-    for kind in ("assign", "relassign", "delete", "append", "create", "subtree"):
+    for kind in ("assign", "relassign", "delete", "deletefirst", "append", "mapappend", "create", "subtree"):
         P = rng.choice(ts)
         e = table[P]
         k = e["a"][0]
@@ -531,6 +561,16 @@ def make_updates(rng, table, root):
                 ups.append({"kind": "assign", "path": P, "expr": "%s |= %s" % (expr_of(P), v[0]), "value": v})
         elif kind == "delete":
             ups.append({"kind": "delete", "path": P, "expr": "del(%s)" % expr_of(P)})
+        elif kind == "deletefirst":
+            firsts = [p for p in ts if len(p) == 1 and (p[0] == 0 or (isinstance(table[()]["shape"], tuple) and table[()]["shape"] and p[0] == table[()]["shape"][0]))]
+            if firsts:
+                ups.append({"kind": "delete", "path": firsts[0], "expr": "del(%s)" % expr_of(firsts[0])})
+        elif kind == "mapappend":
+            maps = [p for p in ts if table[p]["a"][0] == "map"]
+            if maps:
+                P = rng.choice(maps)
+                form = rng.choice(['%s += {"zz": 1}', '%s |= . + {"zz": 1}'])
+                ups.append({"kind": "mapappend", "path": P, "expr": form % expr_of(P)})
         elif kind == "append":
             seqs = [p for p in ts if table[p]["a"][0] == "seq"]
             if seqs:
